@@ -9,6 +9,7 @@ mod monitors;
 mod mutate;
 mod rng;
 mod selfcheck;
+mod sjis;
 mod spec;
 mod tarx;
 mod view;
